@@ -391,7 +391,11 @@ func (b *Bucket) MoveBucket(key []byte, dstBucket *Bucket) (err error) {
 		return errors.ErrIncompatibleValue
 	}
 
-	// remove the sub-bucket from the source bucket
+	// remove the sub-bucket from the source bucket; an already opened instance
+	// moves along so that its uncommitted changes are not lost.
+	if child := b.buckets[string(newKey)]; child != nil {
+		dstBucket.buckets[string(newKey)] = child
+	}
 	delete(b.buckets, string(newKey))
 	c.node().del(newKey)
 
